@@ -229,7 +229,166 @@ def _real_reads(c: rs.SysCase, sim) -> str:
     return "T:" + "&".join(f"{k}>{v}" for k, v in items)
 
 
+
+# --------------------------------------------------------------------------------------
+# the holder's two-tier value store (protocol `hst`, model `HolderStore.lean`)
+
+HST_MONTHS = ["month/2018,1,1/1", "month/2018,2,1/1", "month/2018,3,1/1"]
+HST_ANY = HST_MONTHS + ["year/2018,1,1/1", "day/2018,1,15/1", "eternity/-1,-1,-1/-1"]
+
+
+def _hst_value(kind: str, x: int, E5):
+    import datetime as dt
+    import numpy as np
+    if kind == "enum":
+        return np.array([list(E5)[x]], dtype=object)
+    if kind == "str":
+        return np.array([f"s{x}"], dtype=object)
+    if kind == "date":
+        return np.array([np.datetime64(dt.date.fromordinal(x + 1))], dtype="datetime64[D]")
+    if kind == "bool":
+        return np.array([bool(x)])
+    if kind == "int":
+        return np.array([x], dtype=np.int32)
+    return np.array([float(x)], dtype=np.float32)
+
+
+def _impl_hst(case: Case) -> str:
+    """the history on a REAL holder: writes through set_input / put_in_cache with the memory-occupation
+    threshold moved below / above the machine's occupation before each write, reads through get_array,
+    deletions through delete_arrays, get_known_periods"""
+    import gc
+    import numpy as np
+    from openfisca_core import entities, simulations, taxbenefitsystems, variables
+    from openfisca_core.experimental import MemoryConfig
+    from openfisca_core.indexed_enums import Enum
+    from openfisca_core.periods import DateUnit
+    import datetime as dt
+    from ..perutil import fmt_period, parse_period_token
+    f = case.line.split()
+    eternal, diskable, n = f[1] == "1", f[2] == "1", int(f[3])
+    kind = dict(t.split("=", 1) for t in case.tags if "=" in t).get("vtype", "float")
+    variant = int(dict(t.split("=", 1) for t in case.tags if "=" in t).get("variant", "0"))
+    person = entities.Entity("person", "persons", "", "")
+    tbs = taxbenefitsystems.TaxBenefitSystem([person])
+    E5 = Enum("E5", {f"m{i}": f"m{i}" for i in range(5)})
+    vt = {"int": int, "float": float, "bool": bool, "enum": Enum, "date": dt.date, "str": str}[kind]
+    attrs = dict(value_type=vt, entity=person, definition_period=DateUnit.ETERNITY if eternal else DateUnit.MONTH)
+    if kind == "enum":
+        attrs.update(possible_values=E5, default_value=list(E5)[0])
+    tbs.add_variable(type("v0", (variables.Variable,), attrs))
+    sim = simulations.Simulation(tbs, tbs.instantiate_entities())
+    sim.persons.count = 1
+    sim.persons.ids = ["p0"]
+    tmp = None
+    mc = None
+    try:
+        if diskable or variant % 2:
+            # not disk-storable = no memory configuration at all, or a configuration naming v0 a priority variable
+            tmp = tempfile.mkdtemp(prefix="ofv_c17h_", dir="/var/tmp")
+            sim._data_storage_dir = tmp
+            mc = MemoryConfig(max_memory_occupation=0, priority_variables=[] if diskable else ["v0"])
+            sim.memory_config = mc
+        holder = sim.persons.get_holder("v0")
+        out = []
+        i = 4
+        nw = 0
+        while i < len(f):
+            op = f[i]
+            if op == "s":
+                p, x, b = parse_period_token(f[i + 1]), int(f[i + 2]), f[i + 3] == "1"
+                if mc is not None:
+                    mc.max_memory_occupation_pc = 0 if b else 101
+                val = _hst_value(kind, x, E5)
+                if (nw + variant) % 2:
+                    sim.set_input("v0", p, val)
+                else:
+                    holder.put_in_cache(holder._to_array(val), p)
+                nw += 1
+                i += 4
+            elif op == "g":
+                a = holder.get_array(parse_period_token(f[i + 1]))
+                if a is None:
+                    out.append("none")
+                else:
+                    out.append(rs.canon_array(a))
+                    if kind == "date":      # canon_array prints the ordinal; values are ordinal - 1
+                        out[-1] = str(int(out[-1]) - 1)
+                i += 2
+            elif op == "d":
+                holder.delete_arrays(None if f[i + 1] == "*" else parse_period_token(f[i + 1]))
+                i += 2
+            elif op == "k":
+                out.append("+".join(sorted({fmt_period(q) for q in holder.get_known_periods()})))
+                i += 1
+            else:
+                raise ValueError(op)
+        return ";".join(out)
+    finally:
+        sim = holder = None
+        gc.collect()
+        if tmp:
+            shutil.rmtree(tmp, ignore_errors=True)
+
+
+def _oracle_hst(case: Case, out: str):
+    """independent of the model: one dictionary; the latest write wins, a deletion removes, wherever the values live"""
+    f = case.line.split()
+    eternal = f[1] == "1"
+    key = (lambda t: "eternity/-1,-1,-1/-1") if eternal else (lambda t: t)
+    d: dict = {}
+    want = []
+    i = 4
+    while i < len(f):
+        op = f[i]
+        if op == "s":
+            d[key(f[i + 1])] = f[i + 2]; i += 4
+        elif op == "g":
+            want.append(d.get(key(f[i + 1]), "none")); i += 2
+        elif op == "d":
+            if f[i + 1] == "*":
+                d.clear()
+            else:
+                d.pop(key(f[i + 1]), None)
+            i += 2
+        else:
+            want.append("+".join(sorted(d))); i += 1
+    got = out.split(";") if out else []
+    if got != want:
+        j = next((j for j, (a, b) in enumerate(zip(got, want)) if a != b), min(len(got), len(want)))
+        return ("store-read", f"read #{j} of the history returned {got[j] if j < len(got) else '-'}, the values written say {want[j] if j < len(want) else '-'}")
+    return None
+
+
+def gen_hst(rng: random.Random, n: int):
+    out = []
+    for _ in range(n):
+        eternal = rng.random() < 0.3
+        diskable = rng.random() < 0.7
+        pool = HST_ANY if eternal else HST_MONTHS
+        kind = rng.choice(["float", "int", "bool", "enum", "str", "date"])
+        ops = []
+        for _ in range(rng.randint(3, 12)):
+            u = rng.random()
+            if u < 0.45:
+                ops += ["s", rng.choice(pool), str(rng.randint(0, 1 if kind == "bool" else 4)), str(rng.randint(0, 1))]
+            elif u < 0.8:
+                ops += ["g", rng.choice(pool)]
+            elif u < 0.9:
+                ops += ["d", rng.choice(pool + ["*"])]
+            else:
+                ops += ["k"]
+        ops += ["k"] + [x for q in pool[:3] for x in ("g", q)]
+        nops = sum(1 for t in ops if t in ("s", "g", "d", "k"))
+        line = " ".join(["hst", "1" if eternal else "0", "1" if diskable else "0", str(nops)] + ops)
+        out.append(Case(line=line, payload="", tags=("hst", f"vtype={kind}", f"variant={rng.randint(0, 3)}",
+                                                       "eternal" if eternal else "dated", "disk" if diskable else "memory-only")))
+    return out
+
+
 def impl(case: Case) -> str:
+    if case.line.startswith("hst "):
+        return _impl_hst(case)
     c: rs.SysCase = pickle.loads(bytes.fromhex(case.payload))
     tbs, ctx, E5 = rs.build_system(c)
     configure, tmp = _configure(c, tbs)
@@ -273,6 +432,8 @@ def impl(case: Case) -> str:
 
 
 def canon_equal(case: Case, impl_out: str, model_out: str) -> bool:
+    if case.line.startswith("hst "):
+        return impl_out == model_out
     if rs.values_too_large(impl_out) or rs.values_too_large(model_out):
         return True
     a, b = impl_out.split("#TRACE:")[0], model_out
@@ -284,6 +445,8 @@ def canon_equal(case: Case, impl_out: str, model_out: str) -> bool:
 
 
 def oracle(case: Case, out: str):
+    if case.line.startswith("hst "):
+        return _oracle_hst(case, out)
     if not case.claimed or rs.values_too_large(out):
         return None
     c: rs.SysCase = pickle.loads(bytes.fromhex(case.payload))
@@ -311,6 +474,8 @@ def oracle(case: Case, out: str):
 
 
 def nontrivial(case: Case, out: str) -> bool:
+    if case.line.startswith("hst "):
+        return any(t.isdigit() for t in out.split(";"))
     c: rs.SysCase = pickle.loads(bytes.fromhex(case.payload))
     return any(c.config.get(o) for o in OPTS) and "ok:" in out
 
@@ -341,6 +506,7 @@ def generate(rng: random.Random, tier: str):
         for sub in subsets:
             c2 = _with_config(rng, c, sub)
             out.append(_case(c2, tuple("opt:" + o for o in sub) or ("plain",)))
+    out += gen_hst(rng, 3000 if tier == "quick" else 60000)
     return out
 
 
